@@ -68,7 +68,7 @@ CHECKS = {
    note="Relies on the kernel's atomicity of a single write(2) on an O_APPEND descriptor; stress covers the interleavings that happened, not all."),
 
  "C18": dict(level="exploration", design="3/C18-C19", technique="runtime monitoring of the real snoopyctl against a reference model, exhaustive over small files",
-   text="The snoopyctl built from the working tree is run (enable, enable again, status) on every ld.so.preload content of up to 3 (quick) / 4 (thorough) lines over an 18-kind line alphabet, terminated and unterminated, plus absent/empty and thousands of random files; file bytes, exit status and status output are compared with preload_model. Exhaustive for the enumerated small files, sampled beyond.",
+   text="The snoopyctl built from the working tree is run (enable, enable again, status) on every ld.so.preload content of up to 3 (quick) / 4 (thorough) lines over a 20-kind line alphabet, terminated and unterminated, plus absent/empty and thousands of random files; file bytes, exit status and status output are compared with preload_model. Exhaustive for the enumerated small files, sampled beyond.",
    note="Trusts the SNOOPY_TEST_* path overrides (the suite's own mechanism) and the model of 'comment line' / 'active entry' in DESIGN A.3; open points of the property accept several outcomes."),
  "C19": dict(level="exploration", design="3/C18-C19", technique="runtime monitoring of the real snoopyctl against a reference model, exhaustive over small files",
    text="`snoopyctl disable` and the enable;disable round trip are run on the same exhaustively enumerated and random files; a token- and line-level oracle demands that only the own entry disappears, refusals leave the file untouched and are justified by >=2 active mentions.",
@@ -78,7 +78,26 @@ CHECKS = {
    note="Crash points are syscall boundaries of the traced runs only (power loss / page-cache effects are not modelled); strace semantics as measured in DESIGN section 1."),
 }
 
+# what later rounds added to each check (appended to the level text)
+ADDED = {
+ "C02": " A memcheck arm (valgrind --track-origins on about 480 in-vitro cases of the plain build, stack dirtied before each call) reports uninitialised reads, which the compiler sanitizers cannot see.",
+ "C03": " Natural states include a stream listener that never accepts and repeated calls on sinks with bounded queues.",
+ "C04": " Includes a FIFO log file whose reader attaches late, dropped calls with over-long messages under error_logging=yes, and observed calls in a forked child after a priming call in the parent.",
+ "C10": " Stop points also lie right before every I/O call the library issues (open, write, close, socket, send, flock, fopen, fclose).",
+ "C12": " A third of the states live in an orphaned process tree (top re-parented to pid 1) whose root process carries a generated name (leading blanks/tabs, parentheses, status-key look-alikes); errno on entry is varied.",
+ "C13": " The probe also drives each registry's lookup-by-name functions with every name of the all-on build, each proper prefix, the empty name and extended/upper-case spellings (about 1 280 candidates per configuration): an absent name must be unknown, a present one must resolve to its own index.",
+ "C14": " The errno the caller holds on entry (0, ERANGE, EINVAL, EINTR, EOVERFLOW, ENOENT) is varied per case.",
+ "C16": " Callers start with blocked / ignored signals (SIGPIPE among them) and a stale errno, and the first call of a run is judged as well (all but the heap). A fork arm on the controlled scheduler parks another thread at every stop point of a wrapped call, forks, and the child - allocator monitor loaded - must track its own thread only and keep no configuration string of the vanished threads after its own complete call.",
+ "C17": " Three traced cases run on a tmpfs that fills up mid-record (short write, then ENOSPC): no truncation, no second attempt, bytes in front unchanged. A writer process dying in the stress arm is a violation.",
+ "C18": " A third of the inputs come with a left-over ld.so.preload.snoopy-tmp of an earlier killed run (longer than the result, or very short); the alphabet (20 line kinds) includes entries and comments with % conversions.",
+ "C19": " Same left-over temporary files and % lines as C18.",
+ "C20": " Further arms: every scenario under RLIMIT_FSIZE of 0, 1, half and length-1 of the new content with SIGXFSZ ignored (short write) and fatal; and a history arm (run killed right before its rename leaves its temporary file, the file then gets shorter, the command runs again: the result must equal a run without that history).",
+}
+
+
 def main():
+    for k, v in ADDED.items():
+        CHECKS[k]["text"] += v
     hooks_commits = []
     m = {
       "version": 1,
